@@ -1048,17 +1048,19 @@ def generate_sample_specs(
 
     gapic_metadata = api_schema.gapic_metadata(opts)
 
-    for service_name, service in gapic_metadata.services.items():
+    # Protobuf map fields have no defined iteration order: sort, so that the
+    # order of the specs does not depend on the protobuf runtime.
+    for service_name, service in sorted(gapic_metadata.services.items()):
         api_short_name = api_schema.services[
             f"{api_schema.naming.proto_package}.{service_name}"
         ].shortname
         api_version = api_schema.naming.version
         supports_grpc = _supports_grpc(service)
-        for transport, client in service.clients.items():
+        for transport, client in sorted(service.clients.items()):
             if supports_grpc and transport == api.TRANSPORT_REST:
                 continue
             sync_or_async = _sync_or_async_from_transport(transport)
-            for rpc_name, method_list in client.rpcs.items():
+            for rpc_name, method_list in sorted(client.rpcs.items()):
                 # Region Tag Format:
                 # [{START|END} ${apishortname}_${apiVersion}_generated_${serviceName}_${rpcName}_{sync|async|rest}]
                 region_tag = f"{api_short_name}_{api_version}_generated_{service_name}_{rpc_name}_{sync_or_async}"
